@@ -398,12 +398,22 @@ class Cylinder(Primitive):
           3D inertia tensor
         """
 
+        # the density and center of mass a user has set are stored as data
+        density = self._data.data.get("density", None)
+        mass = self.volume * (1.0 if density is None else float(density))
         tensor = inertia.cylinder_inertia(
-            mass=self.volume,
+            mass=mass,
             radius=self.primitive.radius,
             height=self.primitive.height,
             transform=self.primitive.transform,
         )
+        center_mass = self._data.data.get("center_mass", None)
+        if center_mass is not None:
+            # move the tensor from the center of the cylinder to the override
+            offset = center_mass - self.primitive.transform[:3, 3]
+            tensor = tensor + mass * (
+                np.dot(offset, offset) * np.eye(3) - np.outer(offset, offset)
+            )
         return tensor
 
     @caching.cache_decorator
@@ -706,7 +716,18 @@ class Sphere(Primitive):
         tensor: (3, 3) float
           3D inertia tensor.
         """
-        return inertia.sphere_inertia(mass=self.volume, radius=self.primitive.radius)
+        # the density and center of mass a user has set are stored as data
+        density = self._data.data.get("density", None)
+        mass = self.volume * (1.0 if density is None else float(density))
+        tensor = inertia.sphere_inertia(mass=mass, radius=self.primitive.radius)
+        center_mass = self._data.data.get("center_mass", None)
+        if center_mass is not None:
+            # move the tensor from the center of the sphere to the override
+            offset = center_mass - self.primitive.center
+            tensor = tensor + mass * (
+                np.dot(offset, offset) * np.eye(3) - np.outer(offset, offset)
+            )
+        return tensor
 
     def _create_mesh(self):
         log.debug("creating mesh for Sphere primitive")
